@@ -6,6 +6,7 @@ import random
 from .. import common as C
 
 PROP = 'C18'
+READY = True
 PROPS_MODULE = 'C18'
 MODEL_TARGETS = ['theories/Case_C18.vo']
 HEADER = ('From Coq Require Import List. Import ListNotations.\n'
